@@ -503,6 +503,128 @@ def _enclosing_loops(node):
     return out
 
 
+# ---- sizes of member containers that every constructor establishes and no member function changes ----------------------
+_CLS_INV = {}
+
+
+def class_size_invariants(prog, cls):
+    """{container member: Lin over 'this.<integer member>' atoms} valid whenever a non-constructor member function runs:
+    the member is private/protected, only constructors size or assign it, every user-written constructor gives it a size that
+    is a function of constructor parameters which are themselves stored unchanged in construction-time constant members"""
+    if cls in _CLS_INV:
+        return _CLS_INV[cls]
+    _CLS_INV[cls] = {}
+    cj = prog.classes.get(cls)
+    if cj is None:
+        return {}
+    from .chain import Chain
+    from .rules_assume import literal, _is_internal, canon
+    ch = Chain(prog, literal, _is_internal, canon)
+    members = [g for g in prog.functions.values() if g.cls == cls and not g.get("implicit") and not g.file.endswith("coverage.cc")]
+    ctors = [g for g in members if g.kind == "ctor"]
+    if any(g.kind in ("copy_ctor", "move_ctor") for g in members) or not ctors:
+        return {}
+    others = [g for g in members if g.kind not in ("ctor", "dtor")]
+    # every declared constructor must be one of the analysed bodies (a defaulted default constructor leaves the members at
+    # their in-class initialisers: no size relation is established by it)
+    body_usrs = {g.usr for g in ctors}
+    for m in cj.get("methods", []):
+        if m.get("kind") == "ctor" and not m.get("deleted"):
+            sig = m.get("sig", "")
+            is_copy_move = re.search(r"\((const )?%s ?&&?\)" % re.escape(cls), sig) is not None
+            if is_copy_move and (m.get("implicit") or m.get("defaulted")):
+                continue
+            if m.get("usr") not in body_usrs or m.get("defaulted"):
+                return {}
+    out = {}
+    for fl in cj.get("fields", []):
+        ct = fl["ctype"]
+        if not (ct.startswith("std::vector<") or ct.startswith("dsplib::base_array<")) or fl.get("access") == "public":
+            continue
+        F = fl["name"]
+        unstable = False
+        for g in others:
+            if any(k == ("field", F) or k == ("field", "*") for (_, _, k) in g._writes()):
+                unstable = True
+                break
+            for x in g.walk():
+                if x.is_call() and x.callee and x.k not in ("CXXMemberCallExpr", "CXXOperatorCallExpr", "CXXConstructExpr", "CXXTemporaryObjectExpr"):
+                    pm = x.callee.get("pm", [])
+                    for i, a in enumerate(x.call_args()):
+                        a0 = a.strip_all()
+                        if i < len(pm) and pm[i] in ("ref", "ptr") and a0.k == "MemberExpr" and a0.decl and a0.decl.get("n") == F:
+                            unstable = True
+                if x.k == "CXXOperatorCallExpr" and x.op == "=" and len(x.c) == 3:
+                    l = x.c[1].strip_all()
+                    if l.k == "MemberExpr" and l.decl and l.decl.get("n") == F and (not l.c or l.c[0].strip_all().k == "CXXThisExpr"):
+                        unstable = True
+        if unstable:
+            continue
+        sizes = []
+        for g in ctors:
+            if any(ci.get("delegating") for ci in g.ctor_inits()):
+                continue
+            g.blocks
+            c2 = Ctx(prog, g)
+            v = None
+            # the last top-level assignment in the body wins over the member initialiser
+            body = g.body()
+            assigns = []
+            for x in (body.walk() if body is not None else []):
+                if x.k == "CXXOperatorCallExpr" and x.op == "=" and len(x.c) == 3:
+                    l = x.c[1].strip_all()
+                    if l.k == "MemberExpr" and l.decl and l.decl.get("n") == F and (not l.c or l.c[0].strip_all().k == "CXXThisExpr"):
+                        assigns.append(x)
+            if assigns:
+                last = assigns[-1]
+                top = last
+                while top.parent is not None and top.parent.id != body.id:
+                    top = top.parent
+                if top.k in ("IfStmt", "ForStmt", "WhileStmt", "DoStmt", "SwitchStmt", "CXXForRangeStmt", "CXXTryStmt") or len(assigns) > 1:
+                    v = None
+                else:
+                    v = _size_of_value(c2, last.c[2], 0)
+            else:
+                for ci in g.ctor_inits():
+                    if ci.get("member") == F and ci.c and ci.get("written"):
+                        v = _size_of_value(c2, ci.c[0], 0)
+            if v is None or c2.divs:
+                sizes = None
+                break
+            # parameters -> the members that store them
+            param_field = {}
+            for ci in g.ctor_inits():
+                m = ci.get("member")
+                if m and ci.c:
+                    i0 = ci.c[0].strip_all()
+                    while i0.k in ("InitListExpr", "CXXConstructExpr", "CXXFunctionalCastExpr") and len(i0.c) == 1:
+                        i0 = i0.c[0].strip_all()
+                    if i0.k == "DeclRefExpr" and i0.decl and i0.decl.get("k") == "parm":
+                        fi = ch.field_inits(cls, m)
+                        if fi:
+                            param_field["p:" + i0.decl["n"]] = "this." + m
+            t2 = {}
+            okv = True
+            for a, k in v.t.items():
+                if a.startswith("this."):
+                    fi = ch.field_inits(cls, a[len("this."):])
+                    if not fi:
+                        okv = False
+                    t2[a] = t2.get(a, 0) + k
+                elif a in param_field:
+                    t2[param_field[a]] = t2.get(param_field[a], 0) + k
+                else:
+                    okv = False
+            if not okv:
+                sizes = None
+                break
+            sizes.append(Lin(t2, v.c))
+        if sizes and all(x.key() == sizes[0].key() for x in sizes):
+            out[F] = sizes[0]
+    _CLS_INV[cls] = out
+    return out
+
+
 def _loop_constraints(ctx, node):
     """registers the counted loops that enclose node in ctx.loopvars; -> their bound constraints"""
     ctx.loopvars = {}
@@ -560,6 +682,14 @@ def _gather(ctx, f, node, base_cons, seed_atoms, size_cache, skip_size_of=None):
             if k2 is None or a in added or a == skip_size_of:
                 continue
             added.add(a)
+            if k2[3] == "field" and f.cls and f.kind not in ("ctor", "copy_ctor", "move_ctor", "dtor"):
+                inv = class_size_invariants(ctx.prog, f.cls).get(k2[1])
+                if inv is not None and not any(("field", t[len("this."):]) in ctx._written_ids() for t in inv.atoms()):
+                    sz2 = Lin({a: 1})
+                    base_cons += [sz2 - inv, inv - sz2]
+                    if not inv.atoms() <= relevant:
+                        relevant |= inv.atoms()
+                        grew = True
             if k2[3] == "local":
                 if k2 not in size_cache:
                     size_cache[k2] = _construction_size(ctx, f, k2)
